@@ -106,6 +106,20 @@ var c10Corners = []string{
 	"SELECT DISTINCT (SELECT q FROM items) AS s, * FROM t",
 	"SELECT DISTINCT `<-` AS back, * FROM t WHERE a IN (SELECT c FROM `<-u`)",
 	"SELECT DISTINCT *, (SELECT * FROM `<-`) AS all_of_it FROM t",
+	// a subquery over dual whose select list mixes comparisons and *, under an outer DISTINCT (rows are formatted)
+	"SELECT DISTINCT (SELECT id = 1 AS b, * FROM dual) AS x FROM t",
+	"SELECT DISTINCT (SELECT *, id = 1 AS b FROM dual) AS x FROM t",
+	"SELECT DISTINCT (SELECT a IN (1) AS f, * FROM dual) AS x, * FROM t",
+	"SELECT DISTINCT (SELECT EXISTS (SELECT q FROM items) AS e, a BETWEEN 1 AND 2 AS w, * FROM dual) AS x FROM t",
+	"SELECT DISTINCT (SELECT (SELECT id = 1 AS b, * FROM dual) AS inner1, * FROM dual) AS x FROM t",
+	"SELECT id, (SELECT id = 1 AS b, * FROM dual) AS x FROM t ORDER BY x",
+	// a CTE read through a path selector (its body is evaluated while the path is being walked)
+	"WITH big AS (SELECT * FROM t WHERE id > 0) SELECT q FROM `big.items`",
+	"WITH c AS (SELECT * FROM t) SELECT id FROM `c[(0:1)]`",
+	"WITH c AS (SELECT * FROM t) SELECT `c[0].id` AS x, `c.id` AS ids FROM dual",
+	"WITH c AS (SELECT id FROM t), d AS (SELECT * FROM `c[(0:2)]`) SELECT * FROM d x JOIN d y ON x.id = y.id",
+	"WITH c AS (SELECT id FROM t) SELECT id FROM t WHERE id IN (SELECT id FROM `<-c[(0:1)]`)",
+	"SELECT id FROM t",
 	"SELECT id FROM t GROUP BY items",
 	"SELECT id FROM t GROUP BY o",
 	"SELECT SUBSTR(b, 5, 1) AS s FROM t",
@@ -442,7 +456,7 @@ func (p *c10) RunCase(i int) *core.CaseResult {
 
 func (p *c10) Meta() core.Meta {
 	return core.Meta{
-		Rule: "corner cases: 142 hand-listed queries (NATURAL JOIN, chained UNION, self- / mutually- / recursively-referencing CTEs, unbalanced brackets under IdiomaticArrays, out-of-range indices in FROM paths, PARALLEL joins and ASYNC / SPIN / SPINASYNC calls whose evaluation fails or panics, DISTINCT over subqueries / back-references plus star, ORDER BY / GROUP BY of objects, SUBSTR / ELEMENTAT out of range, unsupported MySQL syntax families, scalars where arrays are expected) x all 8 option combinations x 3 documents, goroutine-bearing ones under every schedule with <= 1 preemption; mutation cases: every single-token mutation (delete, duplicate, replace by / insert each of 54 tokens) of 12 (thorough 24) seed queries covering the supported grammar x 5 option combinations x 2 documents; token cases: every token string of length <= 3 (thorough 4) over a 30-token alphabet x 5 option combinations. Oracle: no panic escapes New / Exec, no library goroutine panics, no deadlock (scheduler), no worker death (stack overflow, fatal error) and no hang (watchdog), each attributed to the journalled sub-case. non-trivial = some query of the case succeeded",
+		Rule: "corner cases: 154 hand-listed queries (NATURAL JOIN, chained UNION, self- / mutually- / recursively-referencing CTEs, unbalanced brackets under IdiomaticArrays, out-of-range indices in FROM paths, PARALLEL joins and ASYNC / SPIN / SPINASYNC calls whose evaluation fails or panics, DISTINCT over subqueries / back-references plus star, ORDER BY / GROUP BY of objects, SUBSTR / ELEMENTAT out of range, unsupported MySQL syntax families, scalars where arrays are expected) x all 8 option combinations x 3 documents, goroutine-bearing ones under every schedule with <= 1 preemption; mutation cases: every single-token mutation (delete, duplicate, replace by / insert each of 54 tokens) of 12 (thorough 24) seed queries covering the supported grammar x 5 option combinations x 2 documents; token cases: every token string of length <= 3 (thorough 4) over a 30-token alphabet x 5 option combinations. Oracle: no panic escapes New / Exec, no library goroutine panics, no deadlock (scheduler), no worker death (stack overflow, fatal error) and no hang (watchdog), each attributed to the journalled sub-case. non-trivial = some query of the case succeeded",
 		Assumptions: []string{"user-registered functions that panic with a value that is not an error are outside the property's quantifier; HPANIC panics with an error value, HPANICSTR with a runtime error", "debug.SetMaxStack(256 MiB) makes runaway recursion fail fast; the watchdog kills a worker without progress for 120 s"},
 		Bounds:      map[string]any{"corners": len(c10Corners), "seeds": len(c10Seeds), "menu": len(c10Menu), "token_alphabet": len(c10TokenAlphabet), "token_length": p.tokLen},
 		Exhaustive:  true,
